@@ -86,6 +86,15 @@ def run(check: Check) -> None:
                 labels, cells = mc.matrix_cells(mm, out)
                 tix = {repr(t): idx for t, idx in mm.model_spec.term_indices.items()}
                 for S, sub, sm in subs:
+                    for tag, msg in metadata_findings(sm, out, list(S)):
+                        if "[factors not in sorted order]" in tag:
+                            continue  # the recorded printed-form lookup findings apply to subset specs alike
+                        p = {"kind": "c10_subset_meta", "formula": formula, "efr": efr, "output": out, "terms": fam, "subset": list(S), "tag": tag}
+                        bad = replays.run(p)
+                        if bad:
+                            check.violation(f"subset-metadata::{tag}", f"subset({S}) of {formula!r}: {msg}", p)
+                        else:
+                            check.nonreproducing(f"subset metadata finding {tag}: {msg}")
                     want_cols = [j for s in S for j in tix[_printed(s)]]
                     sl, sc = mc.matrix_cells(sm, out)
                     yield f"subset {S}: exactly the parent's column names for those terms", sorted(sl) == sorted(labels[j] for j in want_cols) and len(set(sl)) == len(sl)
